@@ -37,7 +37,7 @@ class Ctx:
         return self.tier == "thorough"
 
 
-def e1_jobs(ctx, prop, scenarios, bound, shards, budget):
+def e1_jobs(ctx, prop, scenarios, bound, shards, budget, oracle=""):
     b = ctx.bin(DISK)
     jobs = []
     for sc in scenarios:
@@ -46,9 +46,35 @@ def e1_jobs(ctx, prop, scenarios, bound, shards, budget):
                 continue
             for sh in range(shards):
                 jobs.append(Job(b, "TestVfE1", name="E1:%s/%s#%d" % (sc, mode, sh), timeout=budget + 60, env={
-                    "VERIF_PARAM_PROPERTY": prop, "VERIF_PARAM_SCENARIO": sc + "/" + mode,
-                    "VERIF_PARAM_BOUND": str(bound), "VERIF_SHARD": "%d/%d" % (sh, shards),
+                    "VERIF_PARAM_PROPERTY": prop, "VERIF_PARAM_SCENARIO": sc + "/" + mode, "VERIF_PARAM_ORACLE": oracle,
+                    "GOMAXPROCS": "2", "VERIF_PARAM_BOUND": str(bound), "VERIF_SHARD": "%d/%d" % (sh, shards),
                     "VERIF_BUDGET_S": str(budget)}))
+    return jobs
+
+
+def e2lru_jobs(ctx, prop, depth, budget, hard_extras=(-1, 0, 1, 2), maxblocks=(4, 5)):
+    b = ctx.bin(DISK)
+    jobs = []
+    for mb in maxblocks:
+        for he in hard_extras:
+            jobs.append(Job(b, "TestVfE2LRU", name="E2-lru:max%d/hard%d" % (mb, he), timeout=budget + 60, env={
+                "VERIF_PARAM_PROPERTY": prop, "VERIF_PARAM_ORACLE": prop, "VERIF_PARAM_MAXBLOCKS": str(mb),
+                "VERIF_PARAM_HARDEXTRA": str(he), "VERIF_PARAM_DEPTH": str(depth),
+                "VERIF_PARAM_CONFIG": "max%d/hard%d" % (mb, he), "VERIF_BUDGET_S": str(budget)}))
+    return jobs
+
+
+def e2cache_jobs(ctx, prop, depth, budget, shards, also="", proxies=("0", "1"), maxblocks=(4,)):
+    b = ctx.bin(DISK)
+    jobs = []
+    for mode in ("zstd", "uncompressed"):
+        for px in proxies:
+            for mb in maxblocks:
+                for sh in range(shards):
+                    jobs.append(Job(b, "TestVfE2Cache", name="E2-cache:%s/px%s/max%d#%d" % (mode, px, mb, sh), timeout=budget + 60, env={
+                        "VERIF_PARAM_PROPERTY": prop, "VERIF_PARAM_ORACLE": prop, "VERIF_PARAM_ALSO": also,
+                        "VERIF_PARAM_MODE": mode, "VERIF_PARAM_PROXY": px, "VERIF_PARAM_MAXBLOCKS": str(mb),
+                        "VERIF_PARAM_DEPTH": str(depth), "VERIF_SHARD": "%d/%d" % (sh, shards), "VERIF_BUDGET_S": str(budget)}))
     return jobs
 
 
@@ -63,10 +89,67 @@ def check_C07(ctx):
                 ])
 
 
-CHECKS = {"C07": check_C07}
+E1_ASSUME = [
+    "E1: scheduling points are index-mutex acquire, file-namespace operations, harness read points and the background remover's receive; code between two points of a thread is thread-local",
+    "E1: sequentially consistent interleavings only; preemption bound as reported in parts.*.extra.bound",
+]
+E2_ASSUME = [
+    "E2: every transition is executed on the real SizedLRU / a real disk cache on tmpfs (fresh instance, shortest path replayed); states are deduplicated by their exact canonical form (index in recency order, counters, eviction queue, directory listing with random suffixes stripped)",
+    "E2: alphabets are the small fixed key/size sets listed in DESIGN.md; depth bound as reported in parts.*.extra.depth",
+    "disk.New skeleton fast path (MkdirAll/ReadDir of known-empty leaf directories answered by the os shim) - premise re-checked by a full directory walk at every checked step",
+]
+
+
+def check_C03(ctx):
+    th = ctx.thorough()
+    jobs = e2lru_jobs(ctx, "C03", 6 if th else 4, 1500 if th else 100)
+    jobs += e2cache_jobs(ctx, "C03", 4 if th else 3, 1500 if th else 100, 8 if th else 2)
+    jobs += e1_jobs(ctx, "C03", ["S3-evict-vs-read", "S5-corrupt-get-put", "S7-three-puts-tight"], 3 if th else 2, 2 if th else 1, 1200 if th else 100, oracle="C03@")
+    return dict(level="model_checking", jobs=jobs,
+                rule="explicit-state BFS over operation sequences on the real SizedLRU and on a real disk cache (accounting equation, reserved==0, Stats()==index on every transition) plus all preemption-bounded schedules of three concurrent scenarios (equation at every scheduling point); distinct = distinct canonical states / distinct observed histories",
+                assumptions=E2_ASSUME + E1_ASSUME)
+
+
+def check_C04(ctx):
+    th = ctx.thorough()
+    jobs = e2cache_jobs(ctx, "C04", 4 if th else 3, 1500 if th else 100, 8 if th else 2)
+    jobs += e1_jobs(ctx, "C04", ["S2-ac-overwrite", "S3-evict-vs-read", "S6-corrupt-get-evict-reput", "S7-three-puts-tight"], 3 if th else 2, 2 if th else 1, 1200 if th else 100, oracle="C04@")
+    return dict(level="model_checking", jobs=jobs,
+                rule="explicit-state BFS over operation sequences (incl. uploads failing by hash, short reader, reader error, trailing byte, oversize, and faulty backend fetches) on a real disk cache: directory listing == index after every transition once deletions drained; plus the same at quiescence of every explored schedule of four concurrent scenarios",
+                assumptions=E2_ASSUME + E1_ASSUME)
+
+
+def check_C05(ctx):
+    th = ctx.thorough()
+    jobs = e2lru_jobs(ctx, "C05", 6 if th else 4, 1500 if th else 100, hard_extras=(-1,))
+    jobs += e2cache_jobs(ctx, "C05", 4 if th else 3, 1500 if th else 100, 8 if th else 2, maxblocks=(4, 3) if th else (4,))
+    return dict(level="model_checking", jobs=jobs,
+                rule="explicit-state BFS over sequential histories on the real SizedLRU and a real disk cache against a reference recency model: victims are a least-recently-used tail, not more than needed, none when it fits, accepted upload present, oversize rejected without eviction, every kind of hit refreshes recency",
+                assumptions=E2_ASSUME)
+
+
+CHECKS = {"C03": check_C03, "C04": check_C04, "C05": check_C05, "C07": check_C07}
 
 # per-property manifest metadata
 META = {
+    "C03": dict(
+        category="model_checking", engine="E2 seqx + E1 vsched",
+        text="Explicit-state search: BFS over all operation sequences (depth 4 quick / 6 thorough at LRU level over add/get/reserve/unreserve/remove/remover-step with block-edge sizes; depth 3 / 4 at cache level over good and failing uploads, lookups, overwrites and backend fetches) with every transition executed on the real code, the accounting equation, reserved==0 and Stats()==index checked in every state; plus every <=2/3-preemption schedule of three concurrent scenarios with the equation checked at every scheduling point.",
+        note="Bounded depth and alphabets; per-point check reads private index state through the injected adapter; /status JSON is covered by the server-level grids.",
+        technique="explicit-state BFS over the real transition functions with canonical state hashing + preemption-bounded schedule DFS",
+        design_ref="DESIGN.md 2.3, 3 (C03)"),
+    "C04": dict(
+        category="model_checking", engine="E2 seqx + E1 vsched",
+        text="Explicit-state BFS over operation sequences on a real disk cache including every failing-upload variant and faulty backend fetches; after each transition (deletions drained) a full directory walk must equal the index; plus directory==index at quiescence of every explored schedule of four concurrent scenarios.",
+        note="Bounded depth/alphabet; full walk at each checked step; remover drained by waiting for its queue to empty.",
+        technique="explicit-state BFS over the real cache with fault cells + schedule DFS, directory==index oracle",
+        design_ref="DESIGN.md 2.3, 3 (C04)"),
+    "C05": dict(
+        category="model_checking", engine="E2 seqx",
+        text="Explicit-state BFS over sequential histories on the real SizedLRU (exact minimal-tail oracle) and on a real disk cache (reference recency model: victims form an LRU tail, at most the minimal tail for max(logical, on-disk) next to the replaced version, none if it fits; accepted upload present; oversize rejected without eviction; every kind of hit is a use).",
+        note="Bounded depth/alphabet with sizes on block and max_size edges in both storage modes.",
+        technique="explicit-state BFS over the real code against a reference LRU model",
+        design_ref="DESIGN.md 2.3, 3 (C05)"),
     "C07": dict(
         category="model_checking",
         text="Stateless model checking of the real disk cache: a cooperative scheduler owns every index-mutex acquire, file-namespace operation and the background remover's receive; a DFS explorer runs every interleaving of each 2-3 request scenario (shared keys, corrupt files, space pressure) up to a preemption bound (2 quick / 3 thorough). Oracle per execution: every read is a miss or the whole value of an upload not wholly after it, no lost acknowledgement, accounting equation at every scheduling point, directory == index at quiescence, no deadlock. A separate free-running -race pass covers unsynchronised accesses.",
